@@ -2,7 +2,10 @@ use super::super::{LastState, LightClientProtocol, Status, StatusCode};
 use ckb_constant::sync::MAX_TIP_AGE;
 use ckb_network::{CKBProtocolContext, PeerIndex};
 use ckb_systemtime::unix_time_as_millis;
-use ckb_types::{packed, prelude::*, utilities::merkle_mountain_range::VerifiableHeader};
+use ckb_types::{
+    core::BlockNumber, packed, prelude::*, utilities::merkle_mountain_range::VerifiableHeader,
+    U256,
+};
 use log::{debug, trace};
 
 pub(crate) struct SendLastStateProcess<'a> {
@@ -61,6 +64,24 @@ impl<'a> SendLastStateProcess<'a> {
                 if prev_last_state.total_difficulty() < last_state.total_difficulty() {
                     if let Some(prove_state) = peer_state.get_prove_state() {
                         if prove_state.is_parent_of(&last_state) {
+                            // The chain root in the child is not covered by any proof, so it
+                            // has to be consistent with the proved parent.
+                            let parent_header = prove_state.get_last_header();
+                            let parent_chain_root = last_state.as_ref().parent_chain_root();
+                            let parent_total_difficulty: U256 =
+                                parent_chain_root.total_difficulty().unpack();
+                            let parent_number: BlockNumber =
+                                parent_chain_root.end_number().unpack();
+                            if parent_total_difficulty != parent_header.total_difficulty()
+                                || parent_number != parent_header.header().number()
+                            {
+                                let errmsg = format!(
+                                    "the chain root of the child {} is inconsistent with its proved parent {}",
+                                    last_state,
+                                    parent_header.header().number(),
+                                );
+                                return StatusCode::InvalidChainRoot.with_context(errmsg);
+                            }
                             trace!("peer {}: new last state could be trusted", self.peer_index);
                             let last_n_blocks = self.protocol.last_n_blocks() as usize;
                             let child_prove_state =
